@@ -172,7 +172,16 @@ func (cfg *Configuration) renderResources(ch *chart.Chart, values chartutil.Valu
 		//
 		// We return the files as a big blob of data to help the user debug parser
 		// errors.
-		for name, content := range files {
+		//
+		// The files are written in sorted name order so that the blob does not
+		// depend on map iteration order.
+		names := make([]string, 0, len(files))
+		for name := range files {
+			names = append(names, name)
+		}
+		sort.Strings(names)
+		for _, name := range names {
+			content := files[name]
 			if strings.TrimSpace(content) == "" {
 				continue
 			}
